@@ -29,3 +29,17 @@ Proof.
     | exact tbl_src_NadaFunction_init ].
 Qed.
 Print Assumptions C05_tables.
+
+(* ---- program level (scalar fragment): the boolean specification C05b itself — every type complete, every edge
+   consistent, outputs typed like their operations, input references typed like the inputs they name — holds of
+   the MIR of EVERY program built from literals, inputs, random values, the twenty binary operators, ~, to_public,
+   if_else and k + x (the same specification that is evaluated on the implementation's MIRs on every run) *)
+From NadaV.PyMini Require Import PyMini.
+From NadaV.Model Require Import Surface Trace Compile.
+From NadaV.Spec Require Import MirSpec.
+From NadaV.Proofs Require Import C02Program C05Program.
+
+Theorem C05_scalar_programs : forall p m,
+  run GenScalar.G p = Ok m -> scalar_fragment (p_stmts p) = true -> C05b m = true.
+Proof. exact scalar_programs_satisfy_C05b. Qed.
+Print Assumptions C05_scalar_programs.
